@@ -42,7 +42,7 @@ type sessSpec struct {
 	policy              map[string]byte
 	prepareFails        bool
 	failAt              int // -1: never
-	hints               []bool
+	hints               []int
 	bshort              int // -1: well-behaved
 	ihash               bool
 }
@@ -82,7 +82,7 @@ func (s *sessSpec) line(input []byte) string {
 		policy = append(policy, fmt.Sprintf("%s:%02x", hs(m), s.policy[m]))
 	}
 	for _, h := range s.hints {
-		hints = append(hints, b01(h))
+		hints = append(hints, fmt.Sprint(h))
 	}
 	failAt, bshort := "-", "-"
 	if s.failAt >= 0 {
@@ -341,7 +341,7 @@ func runSessionImpl(s *sessSpec, input []byte) *sessRun {
 	}()
 	select {
 	case <-done:
-	case <-time.After(20 * time.Second):
+	case <-time.After(8 * time.Second):
 		r.hung = true
 		a.Kill()
 		select {
